@@ -35,6 +35,9 @@ for d in sorted(glob.glob("/verif/seeded/*/")):
     mode = c.get("mode", "debug")
     cmd = {"debug": "cargo test --offline --test <demo>", "release": "cargo test --release --offline --test <demo>",
            "miri": "MIRIFLAGS=-Zmiri-many-seeds=0..4 cargo +nightly miri test --offline --test <demo>",
+           "miri-race": "MIRIFLAGS='-Zmiri-many-seeds=0..64 -Zmiri-preemption-rate=0.3' cargo +nightly miri test --offline "
+                        "--test <zz_race demo> (the interleaving the change needs is found by Miri's seeded scheduler; the "
+                        "author's single-threaded demonstration was neutralised by the later repair of D18)",
            "script": "sh demo.sh <worktree>"}.get(mode, mode)
     meta = {
         "id": sid,
